@@ -90,6 +90,15 @@ def templates(tier="quick"):
     st = [Stmt("m1", ex=["s"], hidden=["inc.h"], deps="msvc", prints=P("blank", "m1")), Stmt("m2", ex=["t"], hidden=["inc.h", "inc2.h"], deps="msvc", prints=P("multi", "m2")),
           Stmt("m3", ex=["t"], hidden=["inc.h"], deps="msvc", prints=P("nonl", "m3")), Stmt("link", ex=["m1", "m2", "m3"], prints=P("blank", "link"))]
     add("msvc_filtered_output", Variant("v0", st), js=(1, 3), faults=[{"m1": {"code": 2}}, {"m2": {"code": 1}, "m3": {"code": 1}}])
+    # several statements described by the same text, under a status format without counters: one line each all the same
+    st = [Stmt("s%d" % i, ex=["s"] if i % 2 else ["t"], prints=None, desc="STEP") for i in range(4)]
+    st.append(Stmt("link", ex=[x.id for x in st], prints=P("line", "link"), desc="STEP"))
+    sv = Variant("v0", st)
+    sops, snb = _ops(sv, js=(1, 3))
+    sops.append(ninja_op(j=1, env={"NINJA_STATUS": ">> "}, label="ninja -j1 NINJA_STATUS='>> '"))
+    sops.append(ninja_op(j=3, env={"NINJA_STATUS": ">> "}, label="ninja -j3 NINJA_STATUS='>> '"))
+    T.append(scenario("c20/same_description/fresh", "c20", [sv], ops=sops, init=[], depth=1, tags=["output", "fresh"]))
+    T.append(scenario("c20/same_description/built", "c20", [sv], ops=sops, init=[snb], depth=min(d, 3), tags=["output", "built"]))
     # restat pruning: totals shrink
     st = [Stmt("r", ex=["s"], restat=True, prints=P("line", "r")), Stmt("a", ex=["r"], prints=P("line", "a")),
           Stmt("b", ex=["a"], prints=P("multi", "b")), Stmt("x", ex=["t"], prints=P("line", "x"))]
